@@ -62,6 +62,7 @@ class C01(Prop):
                   "phylip_check_sequential_unknown with rth[] and the returned name width that then configures the PHYLIP reader; esl_msafile_GuessAlphabet = the seven per-format "
                   "line scanners with the 500/5000/50000 early stops + esl_abc_GuessAlphabet with exact 50*d <= n arithmetic; esl_alphabet_Create + per-format SetInmap): the open path "
                   "answers ok / enoformat / enoalphabet and never faults (ct[] and p[w]/p[i<w] accesses bounds-checked), enoformat only under autodetection, enoalphabet only under guessing, "
+                  "the same when the caller hands esl_msafile_Open* an ESL_MSAFILE_FMTDATA with any PHYLIP name width (openModelW, open_total_fmtd; autodetection re-initialises it), "
                   "every configuration it can build (10 formats x text/RNA/DNA/amino) is valid and every read of the resolved reader (PHYLIP: with the autodetected name width) is good; and for ALL TEN declared formats - aligned FASTA, A2M (incl. padding), "
                   "Clustal, Clustal-like, PSI-BLAST, PHYLIP interleaved and sequential (incl. header parsing and pushed-back lines), SELEX, Stockholm and Pfam (block "
                   "invariant over sqlen/sslen/salen/pplen/ogc_len/ogr_len/bi/npb): one esl_msafile_Read returns ok / eof / eformat-with-message, the bounds-checked "
@@ -71,7 +72,10 @@ class C01(Prop):
                   "input. The hand models are tied to the working tree by an exact differential run (status sequence + full MSA dump compared; numeric payload of "
                   "Stockholm weights/cut-offs masked). All formats + autodetection + alphabet guessing are additionally exercised on the real ASan/UBSan/LSan-built "
                   "readers with property monitors (status set, message on eformat, esl_msa_Validate + independent field-length/sentinel/weight checks on every field, "
-                  "per-operation leak check, no ESL_EXCEPTION, identical result from memory / file / slurped / mmap / small-page stream sources).")
+                  "per-operation leak check, no ESL_EXCEPTION, identical result from memory / file / slurped / mmap / small-page stream sources). Generators beyond mutation/grammar/raw: "
+                  "block anomalies, allocation-growth boundaries (lines per block 15..33; 16/17/32/33/64/65 sequences with sparse parsed/unparsed #=GR and #=SS/#=SA), NUL-only and "
+                  "NUL+blank lines adjacent to the blocks of every line-oriented format (esl_memspn/esl_memtok agreement), PHYLIP files of name width 1..25 opened with a matching / "
+                  "non-matching / unset FMTDATA name width, the open path at its decision boundaries.")
     level_note = ("Format autodetection and alphabet guessing are in the model and in the theorems (AUTODETECT section of Props/C01.lean); the 0.02*n double comparisons of esl_abc_GuessAlphabet are "
                   "modelled as exact integer tests 50*d <= n (equal to the binary64 comparison for every n < 2^50; confirmed on every generated case); the '.gz' suffix branch of "
                   "esl_msafile_GuessFileFormat is modelled but cannot be driven through the harness (esl_buffer_Open pipes such files through gzip). Trusted: Lean kernel + propext/Classical.choice/Quot.sound; fidelity of the hand models is checked (not proved) by the "
